@@ -1109,4 +1109,296 @@ theorem roundtrip_generic {γ : Type} (f : Style → Seq → Except Panic Style)
     rw [parseToks_sgrs, hdelta s c.st hs hc]
     simp only [parseToks, ih c.st hc (fun d hd => hcs d (List.mem_cons_of_mem _ hd))]
 
+/-! ## NewStyledString on the producers' range -/
+
+theorem u8i_nat (n : Nat) : u8i (n : Int) = u8 n := by
+  unfold u8i u8
+  omega
+
+theorem ss_empty (dflt s : Style) : ssSeq dflt s [] = .ok dflt := rfl
+
+theorem ss_solo (cfg : Cfg) (dflt s : Style) (p : Nat) (hl : p ∈ cfg.labels) (h0 : p ≠ 0)
+    (h38 : p ≠ 38) (h48 : p ≠ 48) (h58 : p ≠ 58) (h4 : p ≠ 4) :
+    ssLoop cfg dflt [[tokN p]] s = .ok (simple p s) := by
+  simp [ssLoop, ssOne, idx, tokN, hl, h0, h38, h48, h58, h4]
+
+theorem ss_ul1 (cfg : Cfg) (dflt s : Style) (hl : 4 ∈ cfg.labels) (ha : cfg.accepts 4 1 = true) :
+    ssLoop cfg dflt [[tokN 4]] s = .ok { s with ulStyle := SgrCases.UnderlineSingle } := by
+  simp [ssLoop, ssOne, idx, tokN, hl, ha]
+
+theorem ss_ul2 (cfg : Cfg) (dflt s : Style) (n : Nat) (hl : 4 ∈ cfg.labels) (ha : cfg.accepts 4 2 = true)
+    (hs : n ∈ cfg.ulSubs) :
+    ssLoop cfg dflt [[tokN 4, tokN n]] s = .ok { s with ulStyle := ulConst n } := by
+  simp [ssLoop, ssOne, idx, tokN, hl, ha, hs]
+
+theorem ss_idx (cfg : Cfg) (dflt s : Style) (p n : Nat) (hp : p = 38 ∨ p = 48 ∨ p = 58)
+    (hl : p ∈ cfg.labels) (ha : cfg.accepts p 3 = true) :
+    ssLoop cfg dflt [[tokN p, tokN 5, tokN n]] s = .ok (setCol p s (indexColor (u8 n))) := by
+  rcases hp with rfl | rfl | rfl <;>
+    simp [ssLoop, ssOne, idx, tokN, hl, ssColour, ha, setCol, u8i_nat]
+
+theorem ss_rgb (cfg : Cfg) (dflt s : Style) (p r g b : Nat) (hp : p = 38 ∨ p = 48 ∨ p = 58)
+    (hl : p ∈ cfg.labels) (ha : cfg.accepts p 5 = true) :
+    ssLoop cfg dflt [[tokN p, tokN 2, tokN r, tokN g, tokN b]] s = .ok (setCol p s (rgbColor (u8 r) (u8 g) (u8 b))) := by
+  rcases hp with rfl | rfl | rfl <;>
+    simp [ssLoop, ssOne, idx, tokN, hl, ssColour, ha, setCol, u8i_nat]
+
+theorem shown_default : shown {} = TStyle.reset := by
+  simp [shown, TStyle.reset, col_zero, has]
+
+theorem solo_ne0 (p : Nat) (hp : p ∈ soloCodes) : p ≠ 0 := by
+  intro h; subst h; revert hp; decide
+
+/-- `NewStyledString` (default style = the zero style) refines the spec on the colon-form range and
+    keeps styles well formed. -/
+theorem ss_refines (hc : Covers ssCfg) (s : Style) (x : Seq) (hx : emittable x = true) :
+    ∃ s', ssSeq {} s x = .ok s' ∧ shown s' = Spec.sgr (shown s) x ∧ (s.wf → s'.wf) := by
+  rcases emittable_cases x hx with rfl | ⟨p, hp, rfl⟩ | ⟨n, hn, rfl⟩ | ⟨p, n, hp, hn, rfl⟩ | ⟨p, r, g, b, hp, hr, hg, hb, rfl⟩
+  · exact ⟨{}, rfl, shown_default, fun _ => wf_default⟩
+  · by_cases h4 : p = 4
+    · subst h4
+      refine ⟨_, ss_ul1 ssCfg {} s (hc.solo 4 hp) hc.ul1, rfl, fun hs => ?_⟩
+      exact ⟨hs.fg, hs.bg, hs.ul, (by decide : SgrCases.UnderlineSingle ≤ 5), hs.attr⟩
+    · obtain ⟨h38, h48, h58⟩ := solo_ne p hp
+      refine ⟨_, ss_solo ssCfg {} s p (hc.solo p hp) (solo_ne0 p hp) h38 h48 h58 h4, ?_, fun hs => wf_simple s hs p⟩
+      rw [shown_simple s p hp h4, sgr_solo _ p h38 h48 h58 h4]
+  · refine ⟨_, ss_ul2 ssCfg {} s n (hc.solo 4 (by decide)) hc.ul2 (hc.subs n hn), ?_, fun hs => ?_⟩
+    · rw [ulConst_le n hn]
+      simp [Spec.sgr, sgrStep, hn, shown]
+    · exact ⟨hs.fg, hs.bg, hs.ul, (by rw [ulConst_le n hn]; exact hn : ulConst n ≤ 5), hs.attr⟩
+  · obtain ⟨hl, h3, _⟩ := hc.ext p hp
+    refine ⟨_, ss_idx ssCfg {} s p n hp hl h3, ?_, fun hs => wf_setCol p s _ hs (wf_index n)⟩
+    rw [shown_setCol p hp, u8_lt n hn, col_indexColor n hn, spec_idx p n hp]
+  · obtain ⟨hl, _, h5⟩ := hc.ext p hp
+    refine ⟨_, ss_rgb ssCfg {} s p r g b hp hl h5, ?_, fun hs => wf_setCol p s _ hs (wf_rgb r g b)⟩
+    rw [shown_setCol p hp, u8_lt r hr, u8_lt g hg, u8_lt b hb, col_rgbColor r g b hr hg hb, spec_rgb p r g b hp]
+
+
+/-! ## Ranges of the other producers -/
+
+theorem colour_range_gen (P : Seq → Prop) (hP : ∀ x, emittable x = true → P x)
+    (resetT setT brightT idxT rgbT : Sequences.Template) (k kb : Nat)
+    (hk : k = 30 ∨ k = 40 ∨ k = 90 ∨ k = 100) (hkb : kb = 30 ∨ kb = 40 ∨ kb = 90 ∨ kb = 100)
+    (hreset : emittable (fmt resetT []) = true)
+    (hset : ∀ i, i < 8 → fmt setT [i] = [[k + i]]) (hbright : ∀ i, i < 8 → fmt brightT [i] = [[kb + i]])
+    (hidx : ∀ n, n < 256 → P (fmt idxT [n]))
+    (hrgb : ∀ r g b, r < 256 → g < 256 → b < 256 → P (fmt rgbT [r, g, b])) (c : Color) :
+    ∀ x ∈ colourSeq resetT setT brightT idxT rgbT c, P x := by
+  intro x hx
+  unfold colourSeq at hx
+  rcases params_cases' c with h | ⟨i, hi, h⟩ | ⟨r, g, b, hr, hg, hb, h⟩
+  · rw [h] at hx; simp only [List.mem_singleton] at hx; subst hx; exact hP _ hreset
+  · rw [h] at hx; simp only [] at hx
+    by_cases h8 : i < 8
+    · simp only [h8, if_true, hset i h8, List.mem_singleton] at hx; subst hx
+      exact hP _ (em_basic k i hk h8)
+    · by_cases h16 : i < 16
+      · have h' : i - 8 < 8 := by omega
+        simp only [h8, h16, if_true, if_false, hbright _ h', List.mem_singleton] at hx; subst hx
+        exact hP _ (em_basic kb _ hkb h')
+      · simp only [h8, h16, if_false, List.mem_singleton] at hx; subst hx
+        exact hidx i hi
+  · rw [h] at hx; simp only [List.mem_singleton] at hx; subst hx
+    exact hrgb r g b hr hg hb
+
+theorem ssDelta_range (p n : Style) (hn : n.ulStyle ≤ 5) : ∀ x ∈ ssDelta p n, emittable x = true := by
+  intro x hx
+  unfold ssDelta at hx
+  simp only [List.mem_append] at hx
+  rcases hx with h | h | h | h | h
+  · split at h
+    · exact colour_range_gen (fun x => emittable x = true) (fun _ h => h) _ _ _ _ _ 30 90 (by simp) (by simp)
+        (by rw [fmt_fgReset]; decide) fmt_fgSet fmt_fgBrightSet
+        (fun n hn => by rw [fmt_ssFgIndexSet]; exact em_idx 38 n (by simp) hn)
+        (fun r g b hr hg hb => by rw [fmt_ssFgRGBSet]; exact em_rgb 38 r g b (by simp) hr hg hb) _ x h
+    · cases h
+  · split at h
+    · exact colour_range_gen (fun x => emittable x = true) (fun _ h => h) _ _ _ _ _ 40 100 (by simp) (by simp)
+        (by rw [fmt_bgReset]; decide) fmt_bgSet fmt_bgBrightSet
+        (fun n hn => by rw [fmt_ssBgIndexSet]; exact em_idx 48 n (by simp) hn)
+        (fun r g b hr hg hb => by rw [fmt_ssBgRGBSet]; exact em_rgb 48 r g b (by simp) hr hg hb) _ x h
+    · cases h
+  · split at h
+    · exact ul_range _ x h
+    · cases h
+  · exact attr_range _ _ x h
+  · split at h
+    · simp only [fmt_ulStyleSet, List.mem_singleton] at h; subst h
+      simp [emittable, hn]
+    · cases h
+
+theorem renderDelta_range (rgb su legacy : Bool) (p n : Style) (hn : n.ulStyle ≤ 5) :
+    ∀ x ∈ renderDelta rgb su legacy p n, emittableLegacy x = true := by
+  intro x hx
+  unfold renderDelta at hx
+  simp only [List.mem_append] at hx
+  rcases hx with h | h | h | h | h
+  · split at h
+    · exact fg_range legacy _ x h
+    · cases h
+  · split at h
+    · exact bg_range legacy _ x h
+    · cases h
+  · split at h
+    · split at h
+      · exact eml_of_em _ (ul_range _ x h)
+      · cases h
+    · cases h
+  · exact eml_of_em _ (attr_range _ _ x h)
+  · split at h
+    · split at h
+      · simp only [fmt_ulStyleSet, List.mem_singleton] at h; subst h
+        exact eml_of_em _ (by simp [emittable, hn])
+      · split at h
+        · simp only [underlineResetQ_eq, List.mem_singleton] at h; subst h; decide
+        · simp only [underlineSetQ_eq, List.mem_singleton] at h; subst h; decide
+    · cases h
+
+/-! ## StyledString round trip, resets -/
+
+theorem ss_fold_refines (hc : Covers ssCfg) (l : List Seq) (hl : ∀ x ∈ l, emittable x = true) :
+    ∀ s, s.wf → ∃ s', foldC (ssSeq {}) s l = .ok s' ∧ s'.wf ∧ shown s' = apply (shown s) l := by
+  induction l with
+  | nil => intro s hs; exact ⟨s, rfl, hs, rfl⟩
+  | cons x l ih =>
+    intro s hs
+    obtain ⟨s1, h1, e1, w1⟩ := ss_refines hc s x (hl x (List.mem_cons_self ..))
+    obtain ⟨s2, h2, w2, e2⟩ := ih (fun y hy => hl y (List.mem_cons_of_mem _ hy)) s1 (w1 hs)
+    refine ⟨s2, ?_, w2, ?_⟩
+    · simp only [foldC, h1, h2]
+    · rw [e2, e1]; rfl
+
+theorem ss_delta_roundtrip (hc : Covers ssCfg) (s n : Style) (hs : s.wf) (hn : n.wf) :
+    foldC (ssSeq {}) s (ssDelta s n) = .ok n := by
+  obtain ⟨s', h, w, e⟩ := ss_fold_refines hc _ (ssDelta_range s n hn.ulStyle) s hs
+  rw [ssDelta_correct s n hn.ulStyle] at e
+  rw [h, shown_inj s' n w hn e]
+
+theorem ssParseToks_sgrs {γ : Type} (f : Style → Seq → Except Panic Style) (l : List Seq) (rest : List (Tok Seq γ))
+    (hrest : rest ≠ []) :
+    ∀ s, ssParseToks f s (l.map Tok.sgr ++ rest) =
+      match foldC f s l with
+      | .ok s' => ssParseToks f s' rest
+      | .error e => .error e := by
+  induction l with
+  | nil => intro s; rfl
+  | cons x l ih =>
+    intro s
+    have hne : (List.map Tok.sgr l ++ rest).isEmpty = false := by
+      cases l <;> cases rest <;> simp_all
+    simp only [List.map_cons, List.cons_append, ssParseToks, foldC, hne]
+    cases f s x with
+    | error e => rfl
+    | ok s' => exact ih s'
+
+theorem ss_roundtrip_generic {γ : Type} (f : Style → Seq → Except Panic Style) (delta : Style → Style → List Seq)
+    (hdelta : ∀ s n, s.wf → n.wf → foldC f s (delta s n) = .ok n) :
+    ∀ (cs : List (Cell γ)) (s : Style), s.wf → (∀ c ∈ cs, c.st.wf) →
+      ssParseToks f s (encodeFrom delta s cs) = .ok cs := by
+  intro cs
+  induction cs with
+  | nil =>
+    intro s _ _
+    unfold encodeFrom
+    split
+    · simp [ssParseToks]
+    · rfl
+  | cons c cs ih =>
+    intro s hs hcs
+    have hc : c.st.wf := hcs c (List.mem_cons_self ..)
+    unfold encodeFrom
+    rw [ssParseToks_sgrs f _ _ (by simp), hdelta s c.st hs hc]
+    simp only [ssParseToks, ih c.st hc (fun d hd => hcs d (List.mem_cons_of_mem _ hd))]
+
+theorem penAfter_sgrs {γ : Type} (f : Style → Seq → Except Panic Style) (l : List Seq) (rest : List (Tok Seq γ)) :
+    ∀ s, penAfter f s (l.map Tok.sgr ++ rest) =
+      match foldC f s l with
+      | .ok s' => penAfter f s' rest
+      | .error e => .error e := by
+  induction l with
+  | nil => intro s; rfl
+  | cons x l ih =>
+    intro s
+    simp only [List.map_cons, List.cons_append, penAfter, foldC]
+    cases f s x with
+    | error e => rfl
+    | ok s' => exact ih s'
+
+theorem ends_reset_generic {γ : Type} (f : Style → Seq → Except Panic Style) (delta : Style → Style → List Seq)
+    (hdelta : ∀ s n, s.wf → n.wf → foldC f s (delta s n) = .ok n)
+    (hreset : ∀ s, f s [] = .ok {}) :
+    ∀ (cs : List (Cell γ)) (s : Style), s.wf → (∀ c ∈ cs, c.st.wf) →
+      penAfter f s (encodeFrom delta s cs) = .ok {} := by
+  intro cs
+  induction cs with
+  | nil =>
+    intro s _ _
+    unfold encodeFrom
+    split
+    · simp only [sgrResetQ_eq, penAfter, hreset]
+    · rename_i h
+      have : s = {} := by simpa using h
+      subst this; rfl
+  | cons c cs ih =>
+    intro s hs hcs
+    have hc : c.st.wf := hcs c (List.mem_cons_self ..)
+    unfold encodeFrom
+    rw [penAfter_sgrs, hdelta s c.st hs hc]
+    simp only [penAfter]
+    exact ih c.st hc (fun d hd => hcs d (List.mem_cons_of_mem _ hd))
+
+theorem simple_zero (s : Style) : simple 0 s = {} := rfl
+
+/-! ## What a terminal shows while it receives an encoded string -/
+
+/-- The pen `Spec.sgr` gives at every grapheme of a token sequence, and the final pen. -/
+def specRun {γ : Type} : TStyle → List (Tok Seq γ) → List (γ × TStyle) × TStyle
+  | t, [] => ([], t)
+  | t, .sgr x :: r => specRun (Spec.sgr t x) r
+  | t, .text g :: r => let (l, e) := specRun t r; ((g, t) :: l, e)
+
+theorem specRun_sgrs {γ : Type} (l : List Seq) (rest : List (Tok Seq γ)) :
+    ∀ t, specRun t (l.map Tok.sgr ++ rest) = specRun (apply t l) rest := by
+  induction l with
+  | nil => intro t; rfl
+  | cons x l ih => intro t; simp only [List.map_cons, List.cons_append, specRun, apply_cons]; exact ih _
+
+theorem encoded_shows {γ : Type} (sh : Style → TStyle) (delta : Style → Style → List Seq)
+    (hdelta : ∀ p n, n.ulStyle ≤ 5 → apply (sh p) (delta p n) = sh n) (hdef : sh {} = TStyle.reset) :
+    ∀ (cs : List (Cell γ)) (s : Style), (∀ c ∈ cs, c.st.ulStyle ≤ 5) →
+      specRun (sh s) (encodeFrom delta s cs) = (cs.map (fun c => (c.g, sh c.st)), TStyle.reset) := by
+  intro cs
+  induction cs with
+  | nil =>
+    intro s _
+    unfold encodeFrom
+    split
+    · simp only [sgrResetQ_eq, specRun]; rfl
+    · rename_i h
+      have : s = {} := by simpa using h
+      subst this; simp only [specRun, hdef, List.map_nil]
+  | cons c cs ih =>
+    intro s hcs
+    unfold encodeFrom
+    rw [specRun_sgrs, hdelta s c.st (hcs c (List.mem_cons_self ..))]
+    simp only [specRun, ih c.st (fun d hd => hcs d (List.mem_cons_of_mem _ hd)), List.map_cons]
+
+theorem render_shows {γ : Type} (rgb su legacy : Bool) :
+    ∀ (cs : List (Cell γ)) (s : Style), (∀ c ∈ cs, c.st.ulStyle ≤ 5) →
+      specRun (shownCaps rgb su s) (renderFrom rgb su legacy s cs)
+        = (cs.map (fun c => (c.g, shownCaps rgb su c.st)), TStyle.reset) := by
+  intro cs
+  induction cs with
+  | nil => intro s _; simp only [renderFrom, sgrResetQ_eq, specRun, List.map_nil]; rfl
+  | cons c cs ih =>
+    intro s hcs
+    unfold renderFrom
+    rw [specRun_sgrs, renderDelta_correct rgb su legacy s c.st (hcs c (List.mem_cons_self ..))]
+    simp only [specRun, ih c.st (fun d hd => hcs d (List.mem_cons_of_mem _ hd)), List.map_cons]
+
+theorem asIndex_zero : asIndex 0 = 0 := by decide
+theorem shownCaps_default (rgb su : Bool) : shownCaps rgb su {} = TStyle.reset := by
+  have h : shown {} = TStyle.reset := shown_default
+  cases rgb <;> cases su <;> simp [shownCaps, asIndex_zero, col_zero, h, TStyle.reset, SgrCases.UnderlineOff] <;> simp [shown, has]
+
 end VaxisModel.Lemmas.Sgr
